@@ -94,6 +94,7 @@ pub struct Gen
     big_files : bool,
     odd_names : bool,
     long_names : bool,
+    mib_files : bool,
     crowd : bool,
     extra_dirs : Vec<String>,
 }
@@ -111,8 +112,14 @@ impl Gen
         let odd_names = rng.chance(1, 8);
         let long_names = rng.chance(1, 12);
         let crowd = cfg.crowds && !cfg.soak && rng.chance(1, 250);
+        // files around 1 MiB: only in small graphs (a command's output is the concatenation of its inputs)
+        let big_files = big_files && !crowd;    // content grows along dependency paths: keep crowds small-grained
+        let mib_files = big_files && rng.chance(1, 10);
+        let mut cfg = cfg;
+        if mib_files { cfg.max_rules = std::cmp::min(cfg.max_rules, 4); }
         Gen
         {
+            mib_files : mib_files,
             long_names : long_names,
             crowd : crowd,
             extra_dirs : vec![],
@@ -167,7 +174,8 @@ impl Gen
         if self.big_files && self.rng.chance(1, 6)
         {
             // sizes around the 256-byte read buffer of the hashing loop, and beyond
-            let len = *self.rng.pick(&[255usize, 256, 257, 511, 512, 513, 700, 700, 4095, 4096, 4097, 8193, 65536, 65537, 100_000]);
+            let mut len = *self.rng.pick(&[255usize, 256, 257, 511, 512, 513, 700, 700, 4095, 4096, 4097, 8193, 65536, 65537, 100_000]);
+            if self.mib_files && self.rng.chance(1, 3) { len = *self.rng.pick(&[(1usize << 20) - 1, 1 << 20, (1 << 20) + 1, 1_300_001]); }
             // the versions of one path share a long prefix and differ only at the very end (an edit
             // near the end of a long file), or — one time in four — from the first byte on
             let early = self.rng.chance(1, 4);
@@ -237,14 +245,18 @@ impl Gen
     {
         let copyish = self.cfg.copy_rules && self.rng.chance(4, 5);
         let wide = !copyish && self.rng.chance(1, 40);
-        let n_targets = if copyish { 1 } else if wide { self.rng.range(4, 9) } else { match self.rng.below(10) { 0..=5 => 1, 6..=8 => 2, _ => 3 } };
+        let very_wide = wide && !self.big_files && self.rng.chance(1, 10);
+        let n_targets = if copyish { 1 } else if very_wide { self.rng.range(20, 70) } else if wide { self.rng.range(4, 9) } else { match self.rng.below(10) { 0..=5 => 1, 6..=8 => 2, _ => 3 } };
         let avail = self.available_sources(pos);
-        let n_sources = if copyish { 1 } else { std::cmp::min(avail.len(), if wide { self.rng.range(4, 10) } else { self.rng.range(1, 4) }) };
+        let n_sources = if copyish { 1 } else if self.crowd { std::cmp::min(self.leaves.len(), self.rng.range(1, 2)) } else { std::cmp::min(avail.len(), if wide { self.rng.range(4, 10) } else { self.rng.range(1, 4) }) };
         let mut sources : Vec<String> = vec![];
         let earlier_targets : Vec<String> = self.rules[..pos].iter().flat_map(|r| r.targets.clone()).collect();
         while sources.len() < n_sources
         {
-            let s = if earlier_targets.len() > 0 && self.rng.chance(1, 2) { self.rng.pick(&earlier_targets).clone() }
+            // (in a crowd only leaves here; build_graph adds at most one produced source per rule, so
+            //  that sizes grow linearly along a path)
+            let s = if self.crowd { self.rng.pick(&self.leaves.clone()).clone() }
+                    else if earlier_targets.len() > 0 && self.rng.chance(1, 2) { self.rng.pick(&earlier_targets).clone() }
                     else { self.rng.pick(&avail).clone() };
             if !sources.contains(&s)
             {
@@ -295,13 +307,13 @@ impl Gen
 
     fn build_graph(&mut self)
     {
-        let n_leaves = self.rng.range(1, 4);
+        let n_leaves = if self.crowd { self.rng.range(3, 12) } else { self.rng.range(1, 4) };
         for _ in 0..n_leaves
         {
             self.new_leaf();
         }
         let n_rules = if self.crowd { *self.rng.pick(&[40usize, 63, 64, 65, 66, 100, 127, 128, 129, 130, 220]) } else { self.rng.range(1, self.cfg.max_rules) };
-        let shape = if self.crowd { *self.rng.pick(&[1u64, 2, 9, 9, 9]) } else { self.rng.below(10) };
+        let shape = if self.crowd { *self.rng.pick(&[0u64, 1, 2, 9, 9, 9]) } else { self.rng.below(10) };
         for i in 0..n_rules
         {
             let mut r = self.make_rule(i);
@@ -333,6 +345,12 @@ impl Gen
                         let t = q.sorted_targets()[1].clone();
                         force_source(&mut r, &t);
                     }
+                },
+                9 if self.crowd && i > 0 && self.rng.chance(2, 3) =>
+                {
+                    let q = self.rng.below(i as u64) as usize;
+                    let t = self.rules[q].targets[0].clone();
+                    force_source(&mut r, &t);
                 },
                 _ => {},
             }
@@ -886,6 +904,11 @@ impl Gen
                 1 => dirs.push("@ruler=rd.cache".to_string()),
                 _ => { dirs.push(".config".to_string()); dirs.push("@ruler=.config/ruler-dir".to_string()); },
             }
+        }
+        if self.rng.chance(1, 4)
+        {
+            // where on the time axis the workspace lives: near the epoch, today (microseconds), beyond 2^32 and 2^53
+            dirs.push(format!("@clock={}", self.rng.pick(&[1u64, 1_700_000_000_000_000, (1 << 32) + 3, (1 << 53) + 1])));
         }
         if self.rng.chance(1, 5)
         {
